@@ -194,7 +194,7 @@ def worker_main(argv):
 def _spawn(args, env_extra=None, timeout=None):
     env = dict(os.environ)
     env["PYTHONHASHSEED"] = env.get("VERIF_HASHSEED", "0")
-    env["PYTHONPATH"] = VERIF
+    env["PYTHONPATH"] = os.path.join(os.environ.get("VERIF_REPO", "/repo"), "src") + os.pathsep + VERIF
     if env_extra:
         env.update(env_extra)
     return subprocess.Popen([PY, "-X", "faulthandler", "-m", "simkit.cli"] + args, cwd=VERIF, env=env,
